@@ -357,6 +357,20 @@ def run(ctx):
                 and dotted(e.args[0].value) == g.target.id:
             return "flat"
         return None
+    # every mapping is listed: a block generator that emits the PREVIOUS block when
+    # it meets the next header must emit the pending one once more after its loop
+    from ..core.analysis import unflushed_generators
+    lm = repo.func(pm, "Process.memory_maps")
+    lost = unflushed_generators(lm.node)
+    if lost:
+        g_, y_ = lost[0]
+        ctx.fail("C13.R4", "rows:last-block", lm.file, y_.lineno, lm.qual,
+                 f"{g_.name}() yields a block only when the next header arrives and does "
+                 f"not yield after its loop: the LAST mapping of /proc/<pid>/smaps is never "
+                 f"listed (a process with one mapping gets [])")
+    else:
+        ctx.ok("C13.R4", "rows:last-block", nontrivial=False,
+               sample="the block generator flushes the pending block after its loop")
     kinds = {rows_ok(r) for r in rets}
     if {"grouped", "flat"} <= kinds:
         ctx.ok("C13.R4", "rows", sample="one row per distinct path / one per mapping")
